@@ -523,6 +523,57 @@ def rule_09_9(rep, fx):
     rep.check(ok, 'R09.9', 'handle_data_msg/rejected-data-accounted', 'Err => the DATA\'s writer_sn is recorded in the writer proxy on every path',
               'Reader::handle_data_msg only logs when data_to_dds_data rejects a DATA: its sequence number is never recorded in the writer proxy, so a Reliable reader requests it forever '
               '(the retransmission is rejected the same way) and delivers no later sample of that writer', b.where(err[0][0]))
+    rule_09_9_frag(rep, fx)
+
+
+def rule_09_9_frag(rep, fx):
+    """The same for a sample that arrives in fragments (raised F23: the lifespan exit and a completed sample that cannot be parsed both left the number missing for ever)."""
+    b = fx.find('rtps::reader::Reader::handle_datafrag_msg')
+    rep.analysed(b)
+    og = Origins(b, summaries=False)
+    P = Pos(b)
+    edges = list(switch_edges(b, fx, og))
+    recorders = set()
+    for h in fx.bodies:
+        if not h.key.startswith('rtps::reader::Reader::') or h.kind not in ('fn', 'assoc_fn'):
+            continue
+        ogh = Origins(h, summaries=False)
+        for bb, t in h.calls():
+            if callee_res(t).endswith(('RtpsWriterProxy::set_irrelevant_change', 'RtpsWriterProxy::received_changes_add')):
+                sn = ogh.of_operand(t['args'][1], bb, 'term')
+                wp = ogh.of_operand(t['args'][0], bb, 'term')
+                if _strip9(sn)[0] == 'param' and term_has(wp, lambda x: x[0] == 'call' and x[1].endswith('matched_writer_mut') and term_has(x, lambda y: y[0] == 'param' and y[1] >= 2)):
+                    recorders.add((h.key, _strip9(sn)[1]))
+    sinks = []
+    for bb, t in b.calls():
+        cr = norm_path(callee_res(t))
+        for hk, pi in recorders:
+            if cr == hk and len(t['args']) >= pi:
+                v = og.of_operand(t['args'][pi - 1], bb, 'term')
+                if term_has(v, lambda x: x[0] == 'field' and x[1] == 'writer_sn'):
+                    sinks.append((bb, 'term'))
+    # still being assembled: the assembler holds a buffer for this number (true edge of is_frag_partially_received / is_partially_received on it)
+    waiting = [(s_, t_) for s_, t_, cond, lab in edges if
+               (cond[0] == 'call' and cond[1].endswith(('is_frag_partially_received', 'is_partially_received')) and lab is True and term_has(cond, lambda x: x[0] == 'field' and x[1] == 'writer_sn')) or
+               (cond[0] == 'un' and cond[1] == 'Not' and cond[2][0] == 'call' and cond[2][1].endswith(('is_frag_partially_received', 'is_partially_received')) and lab is False and
+                term_has(cond, lambda x: x[0] == 'field' and x[1] == 'writer_sn'))]
+    expired = [(s_, t_) for s_, t_, cond, lab in edges if lab is True and cond[0] == 'call' and cond[1].rsplit('::', 1)[-1] in ('lt', 'gt', 'le', 'ge') and
+               term_has(cond, lambda x: x[0] == 'field' and x[1] in ('lifespan', 'duration'))]
+    ok_e = bool(expired)
+    for s_, t_ in expired:
+        for r in b.return_blocks():
+            if P.can_reach((t_, 0), (r, 'term'), avoid_pos=sinks):
+                ok_e = False
+    rep.check(ok_e, 'R09.9', 'handle_datafrag_msg/expired-accounted', 'lifespan exceeded => the sample\'s writer_sn is recorded in the writer proxy before the return',
+              'Reader::handle_datafrag_msg returns for a sample whose lifespan has expired without recording its sequence number in the writer proxy: a Reliable reader requests it for ever '
+              '(every retransmission is just as old) and delivers no later sample of that writer', b.where(expired[0][0]) if expired else b.where())
+    ok_c = True
+    for r in b.return_blocks():
+        if not P.every_path_passes(None, (r, 'term'), via_pos=sinks, via_edges=waiting + expired, from_entry=True):
+            ok_c = False
+    rep.check(ok_c and bool(sinks), 'R09.9', 'handle_datafrag_msg/completed-unusable-accounted', 'every exit: handed to process_received_data, recorded as unavailable, or still being assembled',
+              'Reader::handle_datafrag_msg can return with the sample neither delivered, nor recorded as unavailable, nor still in the assembler (all fragments arrived but the bytes are not '
+              'a usable payload): the sequence number stays missing, is requested with every HEARTBEAT, and no later sample of that writer is delivered', b.where())
 
 
 def _strip9(t):
